@@ -69,3 +69,8 @@ check("C15", "other",
       "decides content equality of the returned tree with direct evaluation for all leaf contents within the slot bound; engine "
       "of the result, Materialization node counts, identity and preservation of locked nodes under every later factory call are "
       "path assertions.", BSV, "3/C15")
+check("C03", "other",
+      "Bounded symbolic verification: apply()/backtrack_unary()/commute()/Transfer.reapply run under symx for every final "
+      "operation x all preferred-engine option combinations over source->transfer->downstream trees; z3 decides content equality "
+      "of moved trees with direct evaluation for all leaf contents within the slot bound; columns, absence of spurious "
+      "ColumnError/EngineError and the transfer/require contracts are path assertions.", BSV, "3/C03")
